@@ -211,7 +211,13 @@ func (jenny RawTypes) generateConstructor(buffer *strings.Builder, context langu
 			delegatedConstructorName = fmt.Sprintf("%s.%s", referredPkg, delegatedConstructorName)
 		}
 
-		buffer.WriteString(fmt.Sprintf("\treturn %s()", delegatedConstructorName))
+		if object.Type.Nullable {
+			// `type R = *S`: the constructor of S already gives a pointer
+			buffer.WriteString(fmt.Sprintf("\tresource := %s()\n", delegatedConstructorName))
+			buffer.WriteString("\treturn &resource")
+		} else {
+			buffer.WriteString(fmt.Sprintf("\treturn %s()", delegatedConstructorName))
+		}
 		buffer.WriteString("\n}\n")
 		return
 	}
